@@ -12,7 +12,7 @@ marker proofs are built by iterating the whole marker lists (past: membership,
 future: non-membership, both Fresh).  Does not decide completeness of the
 result list for every history."""
 from analysis.rulelib import *
-from analysis.mir import leaves, calls_in, show, walk, short
+from analysis.mir import leaves, calls_in, show, walk, short, PLUMBING
 from rules import dir_shared as ds, verify_shared as vs, c01, c02
 
 EXPLANATION = __doc__
@@ -111,6 +111,24 @@ def run(ctx):
            'states newer than the snapshot would count towards n', key='RF-ORDER|C03.filter_before_limit')
     ctx.ob('C03.S.limit', 'RF-GUARD', okt, b.path, where, 'MostRecent(n) keeps the first n states, Complete keeps all' if okt else
            'the selection is not {Complete: all, MostRecent(n): take(n)}: %s' % show(base)[:160], key='RF-GUARD|C03.limit')
+    # the request-controlled n reaches only the cut itself (take / truncate) — not an allocation size or arithmetic,
+    # which panic or wrap for n near usize::MAX although "any N >= 1" is a valid request (seeded change C03-r2-b)
+    badn = []
+    for pos, t in b.call_sites():
+        nm = short(t.get('res') or t.get('fn')) or ''
+        for a in t.get('args', []):
+            e = b.expr_op(a, pos)
+            if show(e).startswith('params as MostRecent') and not nm.endswith(('Iterator::take', 'Vec::truncate', 'cmp::min', 'Ord::min')) \
+                    and not (t.get('fn') or '').startswith(('core::fmt', 'alloc::fmt')) and t.get('fn') not in PLUMBING:
+                badn.append('%s(%s) at %s' % (nm, show(e)[:40], b.loc(pos)))
+    for pos, st in b.stmts():
+        if st.get('k') == 'assign' and st['r']['k'] == 'bin' and st['r']['op'].split('With')[0] in ('Add', 'Sub', 'Mul', 'Shl'):
+            e = b._expr_rvalue(st['r'], pos, 0)
+            if any(show(x).startswith('params as MostRecent') for x in e[2:4]):
+                badn.append('arithmetic %s at %s' % (show(e)[:60], b.loc(pos)))
+    ctx.ob('C03.S.limit_only_cuts', 'RF-FLOW', not badn, b.path, where,
+           'MostRecent(n): n is used only as the cut (take / truncate)' if not badn else
+           'the request\'s n flows into %s: a large n (a valid request) panics or wraps' % badn, key='RF-FLOW|C03.limit_only_cuts')
     require_guard(ctx, b, 'C03.S.empty', 'RF-GUARD', lambda fc: fc[0] == 'pred' and fc[1].endswith('Vec::is_empty') and fc[3] is True and
                   has_call(fc[2][0], 'get_user_data'), 'an empty selection is an error')
     # HistoryProof literal
